@@ -5,6 +5,7 @@ import contextlib
 from typing import Any, Dict, List, Optional
 
 from .. import env
+from .. import findings
 from .. import programs as P
 from ..harness import Part, Violation
 from ..signatures import op_sig, close, fingerprint, fp_diff
@@ -153,8 +154,10 @@ class Workspace:
         from qce_circuit.addon_stim.factory_manager import to_stim
         c = self.circuit
         first_duration = float(c.duration)        # asked before anything lists the circuit (again)
+        first_blocks = [(float(x.start_time), float(x.duration)) for x in c.composite_operations]   # nested blocks, likewise
         fp = fingerprint(c)
         fp["duration_before_listing"] = first_duration
+        fp["blocks_before_listing"] = first_blocks
         fp["stim"] = str(to_stim(c))
         cp = c.circuit_structure.copy()
         ops = cp.decomposed_operations()
@@ -174,6 +177,9 @@ def diff_fp(a, b) -> Optional[str]:
     if abs(a.get("duration_before_listing", 0.0) - b.get("duration_before_listing", 0.0)) > 1e-9:
         return (f"duration asked before the next listing: {a['duration_before_listing']} vs {b['duration_before_listing']} "
                 f"(after a listing both report {a['duration']})")
+    x, y = a.get("blocks_before_listing", []), b.get("blocks_before_listing", [])
+    if len(x) != len(y) or any(abs(p[0] - q[0]) > 1e-9 or abs(p[1] - q[1]) > 1e-9 for p, q in zip(x, y)):
+        return f"(start, duration) of the nested blocks asked before the next listing: {x} vs {y}"
     if a["stim"] != b["stim"]:
         x, y = a["stim"].splitlines(), b["stim"].splitlines()
         i = next((i for i, (p, q) in enumerate(zip(x, y)) if p != q), min(len(x), len(y)))
@@ -348,6 +354,78 @@ def shaped_block_strategy():
     return block()
 
 
+# ------------------------------------------------------------------------------------------------------------------
+# durations provided by a callable (DynamicDurationStrategy): the value may change between two questions
+# ------------------------------------------------------------------------------------------------------------------
+def strat_dynamic():
+    from hypothesis import strategies as st
+    dur = st.one_of(st.sampled_from([["dyn", "y0"], ["dyn", "y1"]]), st.sampled_from([0.5, 1.0, 2.0]).map(lambda v: ["fix", v]))
+    item = st.fixed_dictionaries({"q": st.integers(0, 2), "d": dur, "gate": st.booleans()})
+    val = st.sampled_from([0.5, 1.0, 1.5, 2.0, 3.0])
+    return st.fixed_dictionaries({"items": st.lists(item, min_size=2, max_size=7),
+                                  "first": st.fixed_dictionaries({"y0": val, "y1": val}),
+                                  "second": st.fixed_dictionaries({"y0": val, "y1": val}),
+                                  "observe": st.sampled_from(["times", "duration", "none"])})
+
+
+def _build_dynamic(case, holder):
+    from qce_circuit.language.declarative_circuit import DeclarativeCircuit
+    from qce_circuit.structure.circuit_operations import Wait, Rx180
+    from qce_circuit.structure.registry_duration import DynamicDurationStrategy, FixedDurationStrategy
+    c = DeclarativeCircuit()
+    for it in case["items"]:
+        kind, v = it["d"]
+        strategy = DynamicDurationStrategy(duration_call=(lambda k=v: holder[k])) if kind == "dyn" else FixedDurationStrategy(duration=v)
+        c.add(Wait(it["q"], duration_strategy=strategy))
+        if it["gate"]:
+            c.add(Rx180(it["q"]))
+    return c
+
+
+def _read_dynamic(c):
+    return [(type(o).__name__, float(o.start_time), float(o.end_time)) for o in c.operations] + [("circuit", 0.0, float(c.duration))]
+
+
+def body_dynamic(case, ctx):
+    used = {it["d"][1] for it in case["items"] if it["d"][0] == "dyn"}
+    changed = sorted(k for k in used if case["first"][k] != case["second"][k])
+    ctx.case(case, nontrivial=bool(changed) and case["observe"] != "none",
+             classes=[f"observe={case['observe']}", f"dynamic_value_changes={bool(changed)}", f"n={len(case['items'])}"])
+    live = twin = fresh = None
+    with ctx.lib("dynamic durations"):
+        holder = dict(case["first"])
+        c = _build_dynamic(case, holder)
+        if case["observe"] == "times":
+            _read_dynamic(c)
+        elif case["observe"] == "duration":
+            c.duration
+        holder.update(case["second"])              # the callables now return other values; nothing else happens
+        live = _read_dynamic(c)
+        twin = _read_dynamic(_build_dynamic(case, dict(case["second"])))      # same circuit, never asked before
+        env.clear_time_caches()
+        fresh = _read_dynamic(c)
+    if live is None or twin is None or fresh is None:
+        return
+
+    def same(a, b):
+        return len(a) == len(b) and all(x[0] == y[0] and abs(x[1] - y[1]) < 1e-9 and abs(x[2] - y[2]) < 1e-9 for x, y in zip(a, b))
+    if not same(live, twin):
+        i = next((i for i, (x, y) in enumerate(zip(live, twin)) if x != y), 0)
+        ctx.fail("history-dependence-dynamic-duration", f"after the callables behind DynamicDurationStrategy changed from {case['first']} to "
+                 f"{case['second']} (asked before: {case['observe']}) the circuit reports {live[i]}, a never-asked circuit "
+                 f"with the same values {twin[i]}",
+                 {"observed_before_change": case["observe"] != "none", "changed_keys": changed,
+                  "fresh_read_after_memo_clear_matches": same(fresh, twin)})
+
+
+@findings.predicate("c03_dynamic_duration_not_invalidating_memo")
+def _pred_dynamic(case, facts) -> bool:
+    """Start times are memoized per (relation link, own duration); nothing tells the memo that the callable of an upstream
+    DynamicDurationStrategy returns another value now.  Signature: something was asked before the change, a used key changed,
+    and the same circuit answers like the never-asked one once the memo is emptied."""
+    return bool(facts.get("observed_before_change") and facts.get("changed_keys") and facts.get("fresh_read_after_memo_clear_matches"))
+
+
 def make_machine(ctx, last):
     from hypothesis import strategies as st
     from hypothesis.stateful import RuleBasedStateMachine, rule, precondition, initialize
@@ -473,4 +551,5 @@ def body_replay(case, ctx):
 
 def parts():
     return [Part("histories", body_replay, strategy=make_machine, stateful=True, quick=260, thorough=600,
-                 steps_quick=16, steps_thorough=22)]
+                 steps_quick=16, steps_thorough=22),
+            Part("dynamic_durations", body_dynamic, strategy=strat_dynamic, quick=300, thorough=3000)]
